@@ -73,6 +73,14 @@ def run(tier, seed):
                                            "--faultmode", "3", "--forcesync", "1", "--keys", "4", "--cpus", str([4, 8, 4, 16][i % 4]),
                                            "--blocks", "44", "--fmt", str([3, 2][i % 2]), "--ttl", "1", "--end", "drop", "--flushpct", "20",
                                            "--maximages", "400", "--cc", "1"]))
+    # the outage begins right after the first acknowledged flush (durable generations exist), every later
+    # overwrite goes through the Bytes variants: nothing the failing batches and the working retirements do
+    # may cost a durable generation
+    for i in range(6 if tier == "quick" else 20):
+        ojobs.append(("durout%d" % i, ["--seed", str(rng.randrange(1 << 30)), "--steps", "40", "--faultat", "0", "--outageafterflush", "1",
+                                        "--faultmode", "3", "--forcesync", "1", "--keys", "3", "--cpus", str([4, 8, 4, 16][i % 4]),
+                                        "--blocks", "44", "--fmt", str([3, 2][i % 2]), "--ttl", "1", "--end", "drop", "--flushpct", "20",
+                                        "--bytespct", str([100, 100, 40][i % 3]), "--maximages", "400", "--cc", "1"]))
     placements += len(ojobs)
     viol, st, traces = ce.run_and_validate(PROP, fxv, rd, ojobs, INV, par_tlc=6)
     all_viol += viol
